@@ -78,7 +78,7 @@ _add("C17",
      "Trusted: generator ground truth. Refusing a document is always accepted (only faithfulness of successful parses and safety are judged).")
 _add("C19",
      "differential runtime oracle for reply parsing (generator-classified entries) + fault-sequence enumeration against the real session in the simulation with a gated scripted tracker",
-     "replies: seeded peer lists whose entries are classified by the generator as clearly well-formed / clearly malformed (wrong type, wrong id length, negative port, non-UTF-8 ip, non-dict) / unclear (port > 65535), optional failure reason, extra keys, shuffled; mutated replies and delimiter soup for totality. Fault sequences: see coverage.fault_sequences. Distinct non-trivial = distinct replies with at least one non-good entry + distinct fault sequences.",
+     "replies: seeded peer lists whose entries are classified by the generator as clearly well-formed / clearly malformed (wrong type, wrong id length, negative port, non-UTF-8 ip, non-dict) / unclear (port > 65535), optional failure reason, extra keys, shuffled; mutated replies and delimiter soup for totality. Fault sequences in the simulation: all sequences over {transport error, HTTP 500, garbage body, failure reason} of length 0..3 (85), long runs 10/63/64/65/70 (thorough up to 200), overlapping announces, random ones; a probe connection must be answered while the scripted tracker keeps failing (gated, causal verdict) and the listed peers must be contacted after the first good reply. Real HTTP client: `TrackerClient::run` against a scripted loopback tracker (faults: close at once, HTTP 500, HTTP 404, garbage body, failure reason, empty body; lengths 1..7) must report every failure, keep retrying, report the good reply and end. Distinct non-trivial = distinct replies with at least one non-good entry + distinct fault sequences.",
      "Fault enumeration: all sequences over {transport error, HTTP-style error, garbage body, failure reason} up to length 3 and selected long ones are played by a scripted tracker against the real manager; the oracle is causal (probe connection answered while the tracker keeps failing; listed peers contacted after the first good reply).",
      "Trusted: the scripted tracker stands in for TrackerClient::run (same channel protocol); the real HTTP client is exercised only by C18 and the real-process layer.",
      level="fault_enumeration", assumptions=SIM_ASSUMPTIONS)
